@@ -264,8 +264,19 @@ def rule_fdb(ctx: Ctx) -> List[Ob]:
             ok = ve is not None and src(ve) in ("bounds", f"{inf} if bounds is None else bounds", f"bounds if bounds is not None else {inf}")
             rdefs = []
             if isinstance(ve, ast.Name):
-                rdefs = [short(x) for _, x, how in ctx.rd(psf).value_exprs(ctx.cfg(psf).node_of(c), ve.id) if x is not None]
+                rd_ = [(dn, x) for dn, x, how in ctx.rd(psf).value_exprs(ctx.cfg(psf).node_of(c), ve.id) if x is not None]
+                rdefs = [short(x) for _, x in rd_]
                 ok = ok and all(r == inf for r in rdefs)
+                # the infinite box may only replace a MISSING box: the redefinition runs under `bounds is None` and nothing else
+                for dn, x in rd_:
+                    stmt = getattr(dn, "ast", None)
+                    g = None
+                    for p_ in ast.walk(psf.node):
+                        if isinstance(p_, ast.If) and stmt is not None and any(stmt is y for b_ in p_.body for y in ast.walk(b_)):
+                            g = p_ if g is None or any(p_ is y for y in ast.walk(g)) else g
+                    if g is None or not bool_equiv(g.test, f"{ve.id} is None"):
+                        ok = False
+                        rdefs.append(f"<- runs under `{short(g.test) if g is not None else 'no guard'}`, not `{ve.id} is None`")
             obs.append(ob("FDB", "factory passes its bounds parameter on unchanged", psf, c, ok,
                           f"finite_diff_bounds <- {short(v)}; local redefinitions of bounds: {rdefs or 'none'}",
                           construct=f"ScalarFunction(finite_diff_bounds={short(v)})"))
